@@ -79,6 +79,9 @@ class World:
         self.shim_log = os.path.join(self.root, "shim.jsonl")
         self.shim_counter = os.path.join(self.root, "shim.count")
         self.shim = shim
+        self.rec = []          # concrete action log (see vf/recorded.py): replayable without the generator
+        self.init_kwargs = dict(mode=mode, prompt_storage=prompt_storage, gitconfig_extra=gitconfig_extra, config_extra=config_extra,
+                                shim=shim, env_extra=env_extra, init_args=list(init_args))
         os.makedirs(os.path.join(self.home, ".git-ai"), exist_ok=True)
         os.makedirs(self.repo, exist_ok=True)
         self.gitconfig = os.path.join(self.home, ".gitconfig")
@@ -152,6 +155,7 @@ class World:
         else:
             e["GIT_AI"] = "git"
             argv = [BIN] + list(args)
+        self._record("git", list(args), cwd, env, input, plain=bool(plain), tick=bool(tick))
         p = run(argv, cwd or self.repo, e, input=input, timeout=timeout)
         if b"panicked at" in p.err:
             raise Panic("panic in %r: %s" % (args, p.stderr[-600:]))
@@ -159,12 +163,31 @@ class World:
 
     def ga(self, *args, cwd=None, env=None, input=None, timeout=TIMEOUT):
         """Run git-ai directly (checkpoint, blame, stats, ...)."""
+        if args and args[0] == "checkpoint":
+            self._record("ga", list(args), cwd, env, input)
         return run([BIN] + list(args), cwd or self.repo, self.env(env), input=input, timeout=timeout)
+
+    def _rel(self, v):
+        if isinstance(v, str):
+            return v.replace(self.root, "{ROOT}")
+        if isinstance(v, bytes):
+            return v.decode("utf-8", "surrogateescape").replace(self.root, "{ROOT}")
+        if isinstance(v, (list, tuple)):
+            return [self._rel(x) for x in v]
+        if isinstance(v, dict):
+            return {k: self._rel(x) for k, x in v.items()}
+        return v
+
+    def _record(self, kind, args, cwd=None, env=None, input=None, **kw):
+        self.rec.append(dict(k=kind, step=self.step, args=self._rel(args), cwd=self._rel(cwd) if cwd else None,
+                             env=self._rel(env) if env else None, input=self._rel(input) if input is not None else None, **kw))
 
     def ogit(self, *args, cwd=None, input=None, raw=False, check=False):
         """Oracle-side git: neutral configuration, never through git-ai."""
         argv = [REAL_GIT, "-c", "core.quotePath=false", "-c", "color.ui=false", "-c", "core.pager=cat",
                 "-c", "core.hooksPath=/dev/null", "-c", "core.fsmonitor=false"] + list(args)
+        if args and args[0] in ("hash-object", "update-index", "fast-import", "update-ref"):
+            self._record("ogit", list(args), cwd, None, input)
         p = run(argv, cwd or self.repo, self.oracle_env, input=input)
         if check and p.rc != 0:
             raise RuntimeError("oracle git %r failed: %s" % (args, p.stderr[-300:]))
@@ -197,6 +220,7 @@ class World:
 
     def write_bytes(self, f, data, repo=None):
         p = self.path(f, repo)
+        self.rec.append(dict(k="write", f=f, repo=self._rel(repo) if repo else None, data=data.decode("utf-8", "surrogateescape")))
         os.makedirs(os.path.dirname(p), exist_ok=True)
         with open(p, "wb") as fh:
             fh.write(data)
